@@ -18,6 +18,8 @@
 -/
 import OrbProofs.C11Lemmas
 import OrbProofs.C11From
+import OrbProofs.C11Args
+import Generated.Writes
 import Mathlib.Tactic.Linarith
 import Mathlib.Algebra.Order.Field.Rat
 
@@ -112,6 +114,79 @@ theorem find_from_limit_skips_far (M : α) (sqrt : α → α) (b : Bound α) (x 
     (hfar : ¬ distSq x.p pt < M) (hin : ¬ miss (rootCell b) b) :
     matchingFrom (some M) sqrt ⟨b, .node (some x) .nil .nil .nil .nil⟩ pt (fun _ => true) = none :=
   matchingFrom_skips_far M sqrt b x pt hfar hin
+
+/-! ### the arguments of a k-nearest call: the distance limit is a value -/
+
+section args
+variable {β : Type} [Add β] [Sub β] [Mul β] [Div β] [OfNat β 2] [LT β] [LE β] [DecidableLT β] [DecidableLE β]
+  [Min β] [Max β]
+
+/-- The caller's limits slice (`q.KNearest(buf, p, k, lims...)` passes the caller's OWN slice) reads
+    after the call exactly what it read before: the model of a call has no write to it.  The
+    correspondence run checks the same on the Go code after every k-nearest call (clause
+    `argument-mutated limit`), and C19's `caller_arguments_read_only` checks it on the regenerated
+    write table. -/
+theorem kNearestCall_limits_unchanged (init : Option β) (sqrt : β → β) (q : QT β) (pt : Pt β) (k : Nat)
+    (f : Ptr β → Bool) (lims : List β) : (kNearestCall init sqrt q pt k f lims).2 = lims :=
+  kNearestCall_limits_unchanged' init sqrt q pt k f lims
+
+/-- Only the first element of the variadic argument is looked at; an empty one means "no limit". -/
+theorem kNearestCall_reads_first_only (init : Option β) (sqrt : β → β) (q : QT β) (pt : Pt β) (k : Nat)
+    (f : Ptr β → Bool) (m : β) (rest : List β) :
+    (kNearestCall init sqrt q pt k f (m :: rest)).1 = kNearestFrom init sqrt q pt k f (some m) ∧
+    (kNearestCall init sqrt q pt k f []).1 = kNearestFrom init sqrt q pt k f none :=
+  kNearestCall_reads_first_only' init sqrt q pt k f m rest
+
+/-- A caller that passes ONE limits slice to any number of successive calls gets from every call
+    the answer for the limit it stored, and finds its slice unchanged at the end. -/
+theorem kNearestCalls_eq_map (init : Option β) (sqrt : β → β) (q : QT β)
+    (cs : List (Pt β × Nat × (Ptr β → Bool))) (lims : List β) :
+    (kNearestCalls init sqrt q cs lims).1 = cs.map (fun c => kNearestFrom init sqrt q c.1 c.2.1 c.2.2 (limitOf lims)) ∧
+    (kNearestCalls init sqrt q cs lims).2 = lims :=
+  kNearestCalls_eq_map' init sqrt q cs lims
+
+end args
+
+/-- Every call of such a sequence satisfies the plain-list specification for the stored limit. -/
+theorem kNearestCall_spec (sqrt : α → α) (hs : SqrtUp sqrt) (q : QT α) (pt : Pt α) (k : Nat) (f : Ptr α → Bool)
+    (lims : List α) (h : QInv q) :
+    Spec q.bound (contents q.root) (.kNearest pt k f (limitOf lims))
+      (.ptrs (kNearestCall none sqrt q pt k f lims).1) (contents q.root) := by
+  have e : (kNearestCall none sqrt q pt k f lims).1 = kNearest sqrt q pt k f (limitOf lims) :=
+    kNearestFrom_none sqrt q pt k f (limitOf lims)
+  rw [e]
+  exact kNearest_spec' sqrt hs q pt k f (limitOf lims) h
+
+/-- THE CLAUSE CAN FAIL, and its failure is visible in later answers: were the limit squared in
+    place (`maxDistance[0] *= maxDistance[0]`), the caller's slice `[2]` would read `[4]` after the
+    first call, and three calls with that one slice on four pointers at distances 0, 1, 3, 10 would
+    answer 2, then 3, then 4 pointers — the model answers 2 pointers every time. -/
+theorem squaring_in_place_is_visible :
+    let call := fun lims => kNearestCallSquaring none (fun x : ℚ => x + 1) lineTree ⟨0, 0⟩ 10 (fun _ => true) lims
+    (call [2]).2 = [4] ∧
+    ((call [2]).1.map (·.id), (call (call [2]).2).1.map (·.id), (call (call (call [2]).2).2).1.map (·.id)) =
+      ([1, 2], [1, 2, 3], [1, 2, 3, 4]) ∧
+    ((kNearestCalls none (fun x : ℚ => x + 1) lineTree [(⟨0, 0⟩, 10, fun _ => true), (⟨0, 0⟩, 10, fun _ => true), (⟨0, 0⟩, 10, fun _ => true)] [2]).1.map
+      fun l => l.map (·.id)) = [[1, 2], [1, 2], [1, 2]] :=
+  squaring_in_place_is_visible'
+
+/-! ### facts regenerated from the Go source (factgen's type-checked view of package quadtree) -/
+
+/-- STORED POINTERS ARE NEVER COMPARED: package quadtree contains no `==` / `!=` between two interface
+    values (other than with the literal nil) and no `switch` over one.  The model identifies a stored
+    `orb.Pointer` by an id and looks at its point only; the Go code can depart from that only by
+    comparing Pointer values — which panics for the same uncomparable dynamic type on both sides (a
+    value struct with a slice or a map inside, such as `geojson.Feature`) — or by type assertions.
+    Regenerated on every run (Generated/Writes.lean `interfaceComparisons`). -/
+theorem pointers_never_compared : Generated.Writes.interfaceComparisons = [] := by decide
+
+/-- THE HEAP GROWS ON DEMAND: `maxHeap.Push` appends to the per-call heap (a row of kind `append`
+    whose destination is `*h` in the regenerated write table) — it does not reslice inside a
+    capacity that `KNearestMatching` chose; the model's `heapPush` is `Array.push` and has no
+    capacity.  (Fix 7b9021e; with the reslice form `k` beyond the pre-allocation panics.) -/
+theorem heap_push_appends :
+    (Generated.Writes.writes.any fun w => w.fn == "maxHeap.Push" && w.kind == "append" && w.rootVar == "h") = true := by
+  decide
 
 /-! ### non-vacuity -/
 
